@@ -239,6 +239,34 @@ EXTRA = [
     ("uncalled_method_at_end_of_chain:single_link:argument", 'print "@@RUN@@"\nclass Eng {\n  p: int\n  constructor(self) {\n    self.p = 9\n  }\n  fn describe(self) -> int {\n    return self.p\n  }\n}\nclass Car {\n  engine: Eng\n  constructor(self) {\n    self.engine = Eng()\n  }\n  fn me(self) -> Self {\n    return self\n  }\n  fn eng(self) -> Eng {\n    return self.engine\n  }\n}\ncar = Car()\nuse = fn(f: fn() -> int) -> int {\n  return 1\n}\nprint use(car.me)\n'),
     ("uncalled_method_at_end_of_chain:builtin_after_field", 'print "@@RUN@@"\nclass Eng {\n  p: int\n  constructor(self) {\n    self.p = 9\n  }\n  fn describe(self) -> int {\n    return self.p\n  }\n}\nclass Car {\n  engine: Eng\n  constructor(self) {\n    self.engine = Eng()\n  }\n  fn me(self) -> Self {\n    return self\n  }\n  fn eng(self) -> Eng {\n    return self.engine\n  }\n}\ncar = Car()\ndet = car.engine.p.abs\nprint "kept"\n'),
     ("uncalled_method_at_end_of_chain:builtin_after_field:argument", 'print "@@RUN@@"\nclass Eng {\n  p: int\n  constructor(self) {\n    self.p = 9\n  }\n  fn describe(self) -> int {\n    return self.p\n  }\n}\nclass Car {\n  engine: Eng\n  constructor(self) {\n    self.engine = Eng()\n  }\n  fn me(self) -> Self {\n    return self\n  }\n  fn eng(self) -> Eng {\n    return self.engine\n  }\n}\ncar = Car()\nuse = fn(f: fn() -> int) -> int {\n  return 1\n}\nprint use(car.engine.p.abs)\n'),
+    # round 6 (side remarks of a break agent about the pinned tree, repaired): methods that do not return on every path,
+    # a byte next to a non-number, op-assignments whose result has another numeric kind than the target
+    ("method_missing_return:if_only", 'print "@@RUN@@"\nclass Kq {\n  v: int\n  constructor(self) {\n    self.v = 1\n  }\n  fn g(self) -> int {\n    if self.v > 5 {\n      return 1\n    }\n  }\n}\nkq = Kq()\nprint kq.g()\n'),
+    ("method_missing_return:else_if_without_else", 'print "@@RUN@@"\nclass Kq {\n  v: int\n  constructor(self) {\n    self.v = 1\n  }\n  fn g(self) -> int {\n    if self.v > 5 {\n      return 1\n    } else if self.v > 2 {\n      return 2\n    }\n  }\n}\nkq = Kq()\nprint kq.g()\n'),
+    ("method_missing_return:while_only", 'print "@@RUN@@"\nclass Kq {\n  v: int\n  constructor(self) {\n    self.v = 1\n  }\n  fn g(self) -> int {\n    while self.v > 5 {\n      return 1\n    }\n  }\n}\nkq = Kq()\nprint kq.g()\n'),
+    ("method_missing_return:empty_body", 'print "@@RUN@@"\nclass Kq {\n  v: int\n  constructor(self) {\n    self.v = 1\n  }\n  fn g(self) -> str {\n  }\n}\nkq = Kq()\nprint kq.g()\n'),
+    ("method_missing_return:else_branch_missing", 'print "@@RUN@@"\nclass Kq {\n  v: int\n  constructor(self) {\n    self.v = 1\n  }\n  fn g(self) -> int {\n    if self.v > 5 {\n      return 1\n    } else {\n      self.v = 2\n    }\n  }\n}\nkq = Kq()\nprint kq.g()\n'),
+    ("byte_with_non_number:bool_plus_byte", 'print "@@RUN@@"\nyb = 0b1\nprint true + yb\n'),
+    ("byte_with_non_number:byte_plus_bool", 'print "@@RUN@@"\nyb = 0b1\nprint yb + false\n'),
+    ("byte_with_non_number:str_minus_byte", 'print "@@RUN@@"\nyb = 0b1\nprint "a" - yb\n'),
+    ("byte_with_non_number:byte_times_str", 'print "@@RUN@@"\nyb = 0b1\nprint yb * "ab"\n'),
+    ("byte_with_non_number:list_plus_byte", 'print "@@RUN@@"\nyb = 0b1\nprint [1] + yb\n'),
+    ("byte_with_non_number:byte_less_than_bool", 'print "@@RUN@@"\nyb = 0b1\nprint yb < true\n'),
+    ("byte_with_non_number:byte_and_bool", 'print "@@RUN@@"\nyb = 0b1\nprint yb & true\n'),
+    ("opassign_promoting_kind:int_bigint", 'print "@@RUN@@"\nav = 1\nav += B5\nprint av\n'),
+    ("opassign_promoting_kind:int_bigint:in_function", 'print "@@RUN@@"\ngo = fn() {\n  av = 1\n  av += B5\n  print av\n}\ngo()\n'),
+    ("opassign_promoting_kind:int_float", 'print "@@RUN@@"\nav = 1\nav *= 1.5\nprint av\n'),
+    ("opassign_promoting_kind:int_float:in_function", 'print "@@RUN@@"\ngo = fn() {\n  av = 1\n  av *= 1.5\n  print av\n}\ngo()\n'),
+    ("opassign_promoting_kind:byte_int", 'print "@@RUN@@"\nav = 0b1\nav += 300\nprint av\n'),
+    ("opassign_promoting_kind:byte_int:in_function", 'print "@@RUN@@"\ngo = fn() {\n  av = 0b1\n  av += 300\n  print av\n}\ngo()\n'),
+    ("opassign_promoting_kind:byte_bigint", 'print "@@RUN@@"\nav = 0b1\nav -= B1\nprint av\n'),
+    ("opassign_promoting_kind:byte_bigint:in_function", 'print "@@RUN@@"\ngo = fn() {\n  av = 0b1\n  av -= B1\n  print av\n}\ngo()\n'),
+    ("opassign_promoting_kind:int_bigint_var", 'print "@@RUN@@"\nav = 1\nkv = B5\nav += kv\nprint av\n'),
+    ("opassign_promoting_kind:int_bigint_var:in_function", 'print "@@RUN@@"\ngo = fn() {\n  av = 1\n  kv = B5\n  av += kv\n  print av\n}\ngo()\n'),
+    ("opassign_promoting_kind:bigint_float", 'print "@@RUN@@"\nav = B1\nav /= 2.0\nprint av\n'),
+    ("opassign_promoting_kind:bigint_float:in_function", 'print "@@RUN@@"\ngo = fn() {\n  av = B1\n  av /= 2.0\n  print av\n}\ngo()\n'),
+    ("opassign_promoting_kind:list_element_int_bigint", 'print "@@RUN@@"\nlv: [int...] = [1]\nlv[0] += B2\nprint lv\n'),
+    ("opassign_promoting_kind:field_int_float", 'print "@@RUN@@"\nclass Fq {\n  n: int\n  constructor(self) {\n    self.n = 1\n  }\n}\nfq = Fq()\nfq.n += 1.5\nprint fq.n\n'),
     ("call_result_of_call_arg_type", 'print "@@RUN@@"\nf = fn(a: str) -> int {\n  return 1\n}\ng = fn(b: int) -> int {\n  return b\n}\nprint f(g(1))\n'),
 ]
 
